@@ -47,6 +47,11 @@ class CountObj:
     def __init__(self, start=0):
         self.v = start
 
+    def pyvc_next(self, interp):
+        v = self.v
+        self.v += 1
+        return v
+
 
 def make_modules():
     ft = ModuleValue("functools")
@@ -56,5 +61,5 @@ def make_modules():
     itools = ModuleValue("itertools")
     itools.ns["chain"] = Builtin("itertools.chain", _chain)
     itools.ns["product"] = Builtin("itertools.product", _product)
-    itools.ns["count"] = Builtin("itertools.count", lambda it, a, k: _Iter(iter(range(10**9)).__iter__() and []) )
+    itools.ns["count"] = Builtin("itertools.count", lambda it, a, k: CountObj(a[0] if a else 0))
     return {"functools": ft, "itertools": itools}
